@@ -4,10 +4,13 @@
 * Part 1 (Level A, no semantics): the declared structures of `op.T` are those of `op`, swapped, for every
   expression (`transpose_structure`, `transposeList_structure`).
 * Part 2 (Level A): double transposition at the level of forms (`transpose_transpose_wrap` and friends).
+* Part 2b (Level A): `op.T` of a structurally well-formed expression is structurally well formed
+  (`transpose_StructOK`).
 * Part 3: for ANY semantics with an additive pairing (`AdjCore`; `AdjSem` = `ArithSem` + pairing projects onto
   it), adjointness of the leaves and wrappers (`LeafAdjoint`, discharged kernel by kernel elsewhere) propagates
   through compositions of any length (`transpose_adjoint_comp`), sums of any length (`transpose_adjoint_add`)
-  and arbitrary nestings of the two (`transpose_adjoint`).
+  and arbitrary nestings of the two (`transpose_adjoint`), for structurally well-formed expressions (`StructOK`:
+  the law `honest` of `AdjCore` is demanded of those only, so that faithful denotations inhabit it).
 
 The laws are hypotheses (structure fields), never axioms.  `List.Forall₂` comes from Batteries.
 -/
@@ -236,10 +239,116 @@ theorem transpose_transpose_wrap :
     obtain ⟨p', h1, h2, h3, h4, _⟩ := transpose_transpose_moveAxis u p
     exact ⟨p', h1, h2, h3, h4⟩
 
+/-! ## Part 2b — `op.T` of a structurally well-formed expression is structurally well formed -/
+
+/-- reversing a chain and swapping the structures of every operand gives a chain -/
+theorem Chain_reverse_of_swapped (ops ts : List Op)
+    (hsw : List.Forall₂ (fun o t => Op.inS t = Op.outS o ∧ Op.outS t = Op.inS o) ops ts)
+    (hc : Chain ops) : Chain ts.reverse := by
+  induction hsw with
+  | nil => trivial
+  | @cons o t os ts' h hrest ih =>
+    rw [List.reverse_cons]
+    cases hrest with
+    | nil => simp [Chain]
+    | @cons o' t' os' ts'' h' hrest' =>
+      have ih' := ih hc.2
+      refine Chain_append _ _ (by simp) (by simp) ih' trivial ?_
+      rw [List.reverse_cons, ArithSem.inSLast_singleton_append]
+      simp only [outSHead]
+      rw [h'.1, h.2]
+      exact hc.1.symm
+
+/-- the structures of every pair `transposeList` forms are swapped -/
+theorem transposeList_swapped : ∀ (ops ts : List Op), WFTList ops → transposeList ops = .ok ts →
+    List.Forall₂ (fun o t => Op.inS t = Op.outS o ∧ Op.outS t = Op.inS o) ops ts
+  | [], ts, _, h => by rw [transposeList_nil_ok h]; exact .nil
+  | o :: os, ts, hw, h => by
+      obtain ⟨t, ts', ht, hts, rfl⟩ := transposeList_cons_ok h
+      exact .cons (transpose_structure o t hw.1 ht) (transposeList_swapped os ts' hw.2 hts)
+
+mutual
+/-- **`op.T` of a structurally well-formed expression is structurally well formed** (every class: the dedicated
+transpose wrappers wrap an operand of their class, the reversed chain of the transposes is a chain, the dual
+container of the transposes satisfies the dual constraint). -/
+theorem transpose_StructOK : ∀ (o t : Op), StructOK o → o.WFT → transposeOp o = .ok t → StructOK t
+  | .leaf u c p, t, _, _, h => by
+      by_cases hs : isSymmetricLeaf c = true
+      · rw [transpose_symmetric_leaf u c p hs] at h
+        simp only [Except.ok.injEq] at h; subst h; exact StructOK_leaf _ _ _
+      · by_cases hc : isWrappedLeaf c = true
+        · rw [transpose_wrapped_leaf u c p hc] at h
+          simp only [Except.ok.injEq] at h; subst h
+          rw [StructOK_wrap_iff]
+          refine ⟨StructOK_leaf _ _ _, ?_⟩
+          cases c <;> simp [isWrappedLeaf, isSymmetricLeaf] at hc <;>
+            simp [WrapOK, transposeWrapper, WrapCls.isLazy, isQURot, isRavelOrReshape, isLeafCls, Op.inS,
+              Op.outS, squareLeaf]
+        · have hcc : c = .moveAxis ∨ c = .dense := by
+            cases c <;> simp_all [isWrappedLeaf, isSymmetricLeaf]
+          rcases hcc with rfl | rfl
+          · simp only [transposeOp, isSymmetricLeaf, Bool.false_eq_true, if_false, Except.ok.injEq] at h
+            subst h; exact StructOK_leaf _ _ _
+          · simp only [transposeOp, isSymmetricLeaf, Bool.false_eq_true, if_false] at h
+            split at h
+            · simp only [Except.ok.injEq] at h; subst h; exact StructOK_leaf _ _ _
+            · simp at h
+  | .wrap u k o, t, hok, _, h => by
+      obtain ⟨hoko, _⟩ := (StructOK_wrap_iff u k o).mp hok
+      cases k <;> simp only [transposeOp, Except.ok.injEq] at h <;> subst h
+      all_goals first
+        | exact hoko
+        | exact hok
+        | (rw [StructOK_wrap_iff]; exact ⟨hok, by simp [WrapOK, WrapCls.isLazy]⟩)
+  | .comp u ops, t, hok, hw, h => by
+      obtain ⟨ts, hts, rfl⟩ := transposeOp_comp_ok h
+      obtain ⟨hne, hoks, hch⟩ := (StructOK_comp_iff u ops).mp hok
+      simp only [Op.WFT] at hw
+      have hl := (transposeList_structure ops ts hw hts).1
+      rw [StructOK_comp_iff]
+      refine ⟨?_, ?_, ?_⟩
+      · intro h0
+        have h1 : ts = [] := by simpa using h0
+        subst h1
+        exact hne (List.length_eq_zero_iff.mp hl.symm)
+      · intro t ht
+        exact transposeList_StructOK ops ts hoks hw hts t (List.mem_reverse.mp ht)
+      · exact Chain_reverse_of_swapped ops ts (transposeList_swapped ops ts hw hts) hch
+  | .cont u k td ops, t, hok, hw, h => by
+      obtain ⟨ts, hts, rfl⟩ := transposeOp_cont_ok h
+      obtain ⟨hne, hoks, hc⟩ := (StructOK_cont_iff u k td ops).mp hok
+      simp only [Op.WFT] at hw
+      obtain ⟨hl, hin, hout⟩ := transposeList_structure ops ts hw hts
+      rw [StructOK_cont_iff]
+      refine ⟨?_, fun t ht => transposeList_StructOK ops ts hoks hw hts t ht, by rw [hl]; exact hc.1, ?_⟩
+      · intro h0; subst h0
+        exact hne (List.length_eq_zero_iff.mp hl.symm)
+      · have h2 := hc.2
+        cases k
+        · exact fun t ht => ⟨allIn_of_allOut ops ts hin (fun o ho => (h2 o ho).2) t ht,
+            allOut_of_allIn ops ts hout (fun o ho => (h2 o ho).1) t ht⟩
+        · exact allIn_of_allOut ops ts hin h2
+        · trivial
+        · exact allOut_of_allIn ops ts hout h2
+theorem transposeList_StructOK : ∀ (ops ts : List Op), (∀ o ∈ ops, StructOK o) → WFTList ops →
+    transposeList ops = .ok ts → ∀ t ∈ ts, StructOK t
+  | [], ts, _, _, h => by
+      rw [transposeList_nil_ok h]
+      intro t ht; simp at ht
+  | o :: os, ts, hok, hw, h => by
+      obtain ⟨t, ts', ht, hts, rfl⟩ := transposeList_cons_ok h
+      intro t' ht'
+      rw [List.mem_cons] at ht'
+      rcases ht' with rfl | ht'
+      · exact transpose_StructOK o _ (hok o (by simp)) hw.1 ht
+      · exact transposeList_StructOK os ts' (fun o' ho' => hok o' (by simp [ho'])) hw.2 hts t' ht'
+end
+
 /-! ## Part 3 — adjointness
 
-The induction is carried out over `AdjCore`, the minimal set of laws it uses: an honest denotation, the laws of
-the two composites (`comp_law`, `add_law`) and a pairing additive in each argument.  `AdjSem` (the structure
+The induction is carried out over `AdjCore`, the minimal set of laws it uses: a denotation that is honest on
+structurally well-formed operators (`StructOK`), the laws of the two composites (`comp_law`, `add_law`) and a
+pairing additive in each argument.  `AdjSem` (the structure
 extending `ArithSem`) projects onto it (`AdjSem.toCore`), and the `AdjSem` statements are corollaries.
 `AdjCore` is inhabited (`AdjCore.unitModel`), so the statements over it are not vacuous.  (An earlier version of
 `OpSem` demanded `inS = outS` of every identity leaf the tree type can express and was therefore empty; the law
@@ -250,11 +359,12 @@ non-trivial inhabitant of `OpSem` and `ArithSem`.) -/
 structure AdjCore (V R : Type) [Add R] [Zero R] where
   den : Op → V → V
   mem : Struct → V → Prop
-  honest : ∀ o x, mem (Op.inS o) x → mem (Op.outS o) (den o x)
+  /-- a structurally well-formed operator maps its input space into its output space -/
+  honest : ∀ o x, StructOK o → mem (Op.inS o) x → mem (Op.outS o) (den o x)
   add : V → V → V
   zero : V
   /-- `CompositionOperator.mv` applies the operands from the last to the first -/
-  comp_law : ∀ u ops x, den (.comp u ops) x = (Sem.mk den Op.inS Op.outS mem honest).app ops x
+  comp_law : ∀ u ops x, den (.comp u ops) x = (Sem.mk den Op.inS Op.outS mem StructOK honest).app ops x
   /-- `AdditionOperator.mv` adds the results of its operand leaves -/
   add_law : ∀ u td ops x, den (.cont u .add td ops) x = (ops.map (fun o => den o x)).foldr add zero
   dot : V → V → R
@@ -309,13 +419,7 @@ theorem transposeList_forall₂ : ∀ (ops ts : List Op), transposeList ops = .o
       obtain ⟨t, ts', ht, hts, rfl⟩ := transposeList_cons_ok h
       exact .cons ht (transposeList_forall₂ os ts' hts)
 
-/-- … and the structures of every pair are swapped -/
-theorem transposeList_swapped : ∀ (ops ts : List Op), WFTList ops → transposeList ops = .ok ts →
-    List.Forall₂ (fun o t => Op.inS t = Op.outS o ∧ Op.outS t = Op.inS o) ops ts
-  | [], ts, _, h => by rw [transposeList_nil_ok h]; exact .nil
-  | o :: os, ts, hw, h => by
-      obtain ⟨t, ts', ht, hts, rfl⟩ := transposeList_cons_ok h
-      exact .cons (transpose_structure o t hw.1 ht) (transposeList_swapped os ts' hw.2 hts)
+/- (`transposeList_swapped`, the structures of every pair are swapped, is in Part 2b above) -/
 
 /-- expressions built from leaves, wrappers, compositions and sums (no block container) -/
 inductive Frag : Op → Prop
@@ -341,7 +445,7 @@ end
 namespace AdjCore
 variable {V R : Type} [Add R] [Zero R] (C : AdjCore V R)
 
-def toSem : Sem Op V Struct := ⟨C.den, Op.inS, Op.outS, C.mem, C.honest⟩
+def toSem : Sem Op V Struct := ⟨C.den, Op.inS, Op.outS, C.mem, StructOK, C.honest⟩
 
 @[simp] theorem toSem_inS (o : Op) : C.toSem.inS o = Op.inS o := rfl
 @[simp] theorem toSem_outS (o : Op) : C.toSem.outS o = Op.outS o := rfl
@@ -366,18 +470,19 @@ def LeafAdjoint : Prop :=
 
 /-- the induction behind `transpose_adjoint_comp`: `⟨(o₁∘…∘oₙ) x, y⟩ = ⟨x, (tₙ∘…∘t₁) y⟩` -/
 theorem adjoint_chain (s : Struct) (ops : List Op) :
-    ∀ (ts : List Op) (t : Struct), C.toSem.WT ops s t →
+    ∀ (ts : List Op) (t : Struct), (∀ o ∈ ops, StructOK o) → (∀ t' ∈ ts, StructOK t') →
+    C.toSem.WT ops s t →
     List.Forall₂ C.IsAdjointOn ops ts →
     List.Forall₂ (fun o t => Op.inS t = Op.outS o ∧ Op.outS t = Op.inS o) ops ts →
     ∀ x y, C.mem s x → C.mem t y →
       C.dot (C.toSem.app ops x) y = C.dot x (C.toSem.app ts.reverse y) := by
   induction ops with
   | nil =>
-    intro ts t _ hadj _ x y _ _
+    intro ts t _ _ _ hadj _ x y _ _
     cases hadj
     rfl
   | cons o os ih =>
-    intro ts t hwt hadj hsw x y hx hy
+    intro ts t hok hokt hwt hadj hsw x y hx hy
     cases hadj with
     | cons ha hadj' =>
       rename_i t0 ts'
@@ -386,34 +491,36 @@ theorem adjoint_chain (s : Struct) (ops : List Op) :
         obtain ⟨h1, h2⟩ := hwt
         simp only [toSem_outS, toSem_inS] at h1 h2
         subst h1
-        have hm : C.mem (Op.inS o) (C.toSem.app os x) := C.toSem.WT_mem _ _ _ h2 x hx
+        have hok' : ∀ o' ∈ os, StructOK o' := fun o' ho' => hok o' (List.mem_cons_of_mem _ ho')
+        have hm : C.mem (Op.inS o) (C.toSem.app os x) := C.toSem.WT_mem _ _ _ hok' h2 x hx
         have hy' : C.mem (Op.inS o) (C.den t0 y) := by
           rw [← hs.2]
-          exact C.honest t0 y (by rw [hs.1]; exact hy)
+          exact C.honest t0 y (hokt t0 List.mem_cons_self) (by rw [hs.1]; exact hy)
         rw [List.reverse_cons, Sem.app_append]
         simp only [Sem.app, toSem_den]
         rw [ha _ _ hm hy]
-        exact ih ts' _ h2 hadj' hsw' x _ hx hy'
+        exact ih ts' _ hok' (fun t' ht' => hokt t' (List.mem_cons_of_mem _ ht')) h2 hadj' hsw' x _ hx hy'
 
-/-- **Adjoint of a composition of any length**: if every operand of a chain, well typed between the
-structures of the composition, is paired with its adjoint by `transposeList`, then the reversed chain of the
-transposes is the adjoint of the composition. -/
-theorem transpose_adjoint_comp (u : Nat) (ops ts : List Op)
+/-- **Adjoint of a composition of any length**: if every operand of a chain of structurally well-formed
+operands, well typed between the structures of the composition, is paired with its adjoint by `transposeList`,
+then the reversed chain of the transposes is the adjoint of the composition. -/
+theorem transpose_adjoint_comp (u : Nat) (ops ts : List Op) (hok : ∀ o ∈ ops, StructOK o)
     (hwt : C.toSem.WT ops (Op.inS (.comp u ops)) (Op.outS (.comp u ops)))
     (hw : WFTList ops) (hT : transposeList ops = .ok ts)
     (hadj : List.Forall₂ C.IsAdjointOn ops ts) :
     C.IsAdjointOn (.comp u ops) (.comp 0 ts.reverse) := by
   intro x y hx hy
   rw [C.comp_law', C.comp_law']
-  exact C.adjoint_chain _ ops ts _ hwt hadj (transposeList_swapped ops ts hw hT) x y hx hy
+  exact C.adjoint_chain _ ops ts _ hok (transposeList_StructOK ops ts hok hw hT) hwt hadj
+    (transposeList_swapped ops ts hw hT) x y hx hy
 
 /-- the same, for a non-empty chain well typed between any two structures -/
 theorem transpose_adjoint_comp' (u : Nat) (ops ts : List Op) (s t : Struct)
-    (hne : ops ≠ []) (hwt : C.toSem.WT ops s t)
+    (hne : ops ≠ []) (hok : ∀ o ∈ ops, StructOK o) (hwt : C.toSem.WT ops s t)
     (hw : WFTList ops) (hT : transposeList ops = .ok ts)
     (hadj : List.Forall₂ C.IsAdjointOn ops ts) :
     C.IsAdjointOn (.comp u ops) (.comp 0 ts.reverse) := by
-  apply C.transpose_adjoint_comp u ops ts _ hw hT hadj
+  apply C.transpose_adjoint_comp u ops ts hok _ hw hT hadj
   obtain ⟨h2, h1⟩ := chainWT_ends ops s t hne ((C.WT_iff _ _ _).1 hwt)
   simp only [Op.inS, Op.outS]
   rw [h1, h2]
@@ -445,42 +552,81 @@ theorem transpose_adjoint_add (u : Nat) (td : TreeDef) (ops ts : List Op)
   exact ⟨hx, hy⟩
 
 mutual
-/-- **`op.T` is the adjoint of `op`** for every expression built from leaves, wrappers, compositions and sums,
-nested to any depth, as soon as it is for the leaves and the wrappers. -/
+/-- **`op.T` is the adjoint of `op`** for every structurally well-formed expression built from leaves, wrappers,
+compositions and sums, nested to any depth, as soon as it is for the leaves and the wrappers. -/
 theorem transpose_adjoint (C : AdjCore V R) (hL : C.LeafAdjoint) : ∀ (o t : Op),
-    Frag o → o.WTAll → o.WFT → transposeOp o = .ok t → C.IsAdjointOn o t
-  | .leaf u c p, t, _, _, _, h => hL _ t rfl h
-  | .wrap u k o, t, _, _, _, h => hL _ t rfl h
-  | .comp u ops, t, hf, hwt, hw, h => by
+    Frag o → StructOK o → o.WTAll → o.WFT → transposeOp o = .ok t → C.IsAdjointOn o t
+  | .leaf u c p, t, _, _, _, _, h => hL _ t rfl h
+  | .wrap u k o, t, _, _, _, _, h => hL _ t rfl h
+  | .comp u ops, t, hf, hok, hwt, hw, h => by
       obtain ⟨ts, hts, rfl⟩ := transposeOp_comp_ok h
       have hfl : ∀ o ∈ ops, Frag o := by cases hf; assumption
+      have hoks := ((StructOK_comp_iff u ops).mp hok).2.1
       simp only [Op.WTAll] at hwt
       simp only [Op.WFT] at hw
-      exact C.transpose_adjoint_comp u ops ts ((C.WT_iff _ _ _).2 hwt.1) hw hts
-        (transpose_adjoint_list C hL ops ts hfl hwt.2 hw hts)
-  | .cont u k td ops, t, hf, hwt, hw, h => by
+      exact C.transpose_adjoint_comp u ops ts hoks ((C.WT_iff _ _ _).2 hwt.1) hw hts
+        (transpose_adjoint_list C hL ops ts hfl hoks hwt.2 hw hts)
+  | .cont u k td ops, t, hf, hok, hwt, hw, h => by
       obtain ⟨ts, hts, rfl⟩ := transposeOp_cont_ok h
       have hfl : k = .add ∧ ∀ o ∈ ops, Frag o := by cases hf; exact ⟨rfl, by assumption⟩
       obtain ⟨rfl, hfl⟩ := hfl
+      have hoks := ((StructOK_cont_iff u .add td ops).mp hok).2.1
       simp only [Op.WTAll] at hwt
       simp only [Op.WFT] at hw
       exact C.transpose_adjoint_add u td ops ts (hwt.1 trivial)
-        (transpose_adjoint_list C hL ops ts hfl hwt.2 hw hts)
+        (transpose_adjoint_list C hL ops ts hfl hoks hwt.2 hw hts)
 theorem transpose_adjoint_list (C : AdjCore V R) (hL : C.LeafAdjoint) : ∀ (ops ts : List Op),
-    (∀ o ∈ ops, Frag o) → WTAllList ops → WFTList ops → transposeList ops = .ok ts →
-    List.Forall₂ C.IsAdjointOn ops ts
-  | [], ts, _, _, _, h => by rw [transposeList_nil_ok h]; exact .nil
-  | o :: os, ts, hf, hwt, hw, h => by
+    (∀ o ∈ ops, Frag o) → (∀ o ∈ ops, StructOK o) → WTAllList ops → WFTList ops →
+    transposeList ops = .ok ts → List.Forall₂ C.IsAdjointOn ops ts
+  | [], ts, _, _, _, _, h => by rw [transposeList_nil_ok h]; exact .nil
+  | o :: os, ts, hf, hok, hwt, hw, h => by
       obtain ⟨t, ts', ht, hts, rfl⟩ := transposeList_cons_ok h
-      exact .cons (transpose_adjoint C hL o t (hf o (by simp)) hwt.1 hw.1 ht)
-        (transpose_adjoint_list C hL os ts' (fun o' ho' => hf o' (by simp [ho'])) hwt.2 hw.2 hts)
+      exact .cons (transpose_adjoint C hL o t (hf o (by simp)) (hok o (by simp)) hwt.1 hw.1 ht)
+        (transpose_adjoint_list C hL os ts' (fun o' ho' => hf o' (by simp [ho']))
+          (fun o' ho' => hok o' (by simp [ho'])) hwt.2 hw.2 hts)
 end
+
+/-- a non-empty chain is well typed between its own end structures -/
+theorem chainWT_of_Chain : ∀ (ops : List Op), ops ≠ [] → Chain ops →
+    chainWT ops (inSLast ops) (outSHead ops)
+  | [], hne, _ => absurd rfl hne
+  | [o], _, _ => ⟨rfl, rfl⟩
+  | a :: b :: rest, _, hc => by
+      have ih := chainWT_of_Chain (b :: rest) (by simp) hc.2
+      refine ⟨rfl, ?_⟩
+      simp only [inSLast, outSHead] at ih ⊢
+      rw [hc.1]; exact ih
+
+mutual
+/-- structural well-formedness implies the typing conditions `WTAll` of the adjointness induction -/
+theorem WTAll_of_StructOK : ∀ (o : Op), StructOK o → o.WTAll
+  | .leaf .., _ => trivial
+  | .wrap .., _ => trivial
+  | .comp u ops, h => by
+      obtain ⟨hne, hoks, hch⟩ := (StructOK_comp_iff u ops).mp h
+      simp only [Op.WTAll]
+      exact ⟨chainWT_of_Chain ops hne hch, WTAllList_of_StructOK ops hoks⟩
+  | .cont u k td ops, h => by
+      obtain ⟨_, hoks, hc⟩ := (StructOK_cont_iff u k td ops).mp h
+      simp only [Op.WTAll]
+      refine ⟨?_, WTAllList_of_StructOK ops hoks⟩
+      rintro rfl
+      exact hc.2
+theorem WTAllList_of_StructOK : ∀ (ops : List Op), (∀ o ∈ ops, StructOK o) → WTAllList ops
+  | [], _ => trivial
+  | o :: os, h => ⟨WTAll_of_StructOK o (h o (by simp)), WTAllList_of_StructOK os (fun o' ho' => h o' (by simp [ho']))⟩
+end
+
+/-- **`op.T` is the adjoint of `op`**, with structural well-formedness as the only typing hypothesis -/
+theorem transpose_adjoint_of_StructOK (C : AdjCore V R) (hL : C.LeafAdjoint) (o t : Op)
+    (hf : Frag o) (hok : StructOK o) (hw : o.WFT) (h : transposeOp o = .ok t) : C.IsAdjointOn o t :=
+  transpose_adjoint C hL o t hf hok (WTAll_of_StructOK o hok) hw h
 
 /-- the laws of `AdjCore` are consistent (one-point value space) -/
 def unitModel : AdjCore Unit Nat where
   den := fun _ _ => ()
   mem := fun _ _ => True
-  honest := fun _ _ _ => True.intro
+  honest := fun _ _ _ _ => True.intro
   add := fun _ _ => ()
   zero := ()
   comp_law := fun _ _ _ => rfl
@@ -527,20 +673,20 @@ theorem isAdjointOn_iff_core (A : AdjSem V R) (o t : Op) :
 theorem leafAdjoint_iff_core (A : AdjSem V R) : LeafAdjoint A ↔ A.toCore.LeafAdjoint := Iff.rfl
 
 /-- **Adjoint of a composition of any length** -/
-theorem transpose_adjoint_comp (A : AdjSem V R) (u : Nat) (ops ts : List Op)
+theorem transpose_adjoint_comp (A : AdjSem V R) (u : Nat) (ops ts : List Op) (hok : ∀ o ∈ ops, StructOK o)
     (hwt : A.toOpSem.toSem.WT ops (Op.inS (.comp u ops)) (Op.outS (.comp u ops)))
     (hw : WFTList ops) (hT : transposeList ops = .ok ts)
     (hadj : List.Forall₂ (IsAdjointOn A) ops ts) :
     IsAdjointOn A (.comp u ops) (.comp 0 ts.reverse) :=
-  A.toCore.transpose_adjoint_comp u ops ts hwt hw hT hadj
+  A.toCore.transpose_adjoint_comp u ops ts hok hwt hw hT hadj
 
 /-- the same, for a non-empty chain well typed between any two structures -/
 theorem transpose_adjoint_comp' (A : AdjSem V R) (u : Nat) (ops ts : List Op) (s t : Struct)
-    (hne : ops ≠ []) (hwt : A.toOpSem.toSem.WT ops s t)
+    (hne : ops ≠ []) (hok : ∀ o ∈ ops, StructOK o) (hwt : A.toOpSem.toSem.WT ops s t)
     (hw : WFTList ops) (hT : transposeList ops = .ok ts)
     (hadj : List.Forall₂ (IsAdjointOn A) ops ts) :
     IsAdjointOn A (.comp u ops) (.comp 0 ts.reverse) :=
-  A.toCore.transpose_adjoint_comp' u ops ts s t hne hwt hw hT hadj
+  A.toCore.transpose_adjoint_comp' u ops ts s t hne hok hwt hw hT hadj
 
 /-- **Adjoint of a sum of any length** -/
 theorem transpose_adjoint_add (A : AdjSem V R) (u : Nat) (td : TreeDef) (ops ts : List Op)
@@ -549,33 +695,36 @@ theorem transpose_adjoint_add (A : AdjSem V R) (u : Nat) (td : TreeDef) (ops ts 
     IsAdjointOn A (.cont u .add td ops) (.cont 0 .add td ts) :=
   A.toCore.transpose_adjoint_add u td ops ts hsame hadj
 
-/-- **`op.T` is the adjoint of `op`** on the fragment leaves / wrappers / compositions / sums -/
+/-- **`op.T` is the adjoint of `op`** on the fragment leaves / wrappers / compositions / sums, for structurally
+well-formed expressions -/
 theorem transpose_adjoint (A : AdjSem V R) (hL : LeafAdjoint A) (o t : Op)
-    (hf : Frag o) (hwt : o.WTAll) (hw : o.WFT) (h : transposeOp o = .ok t) : IsAdjointOn A o t :=
-  AdjCore.transpose_adjoint A.toCore hL o t hf hwt hw h
+    (hf : Frag o) (hok : StructOK o) (hwt : o.WTAll) (hw : o.WFT) (h : transposeOp o = .ok t) :
+    IsAdjointOn A o t :=
+  AdjCore.transpose_adjoint A.toCore hL o t hf hok hwt hw h
 
 end Adjoint
 
 /-! ### the hypotheses are satisfiable on a nested expression
 
-`Index ∘ (Diagonal + Opaque⁻¹ ∘ Homothety)` from a 2-vector to a 3-vector: it is in the fragment, well typed
-everywhere, well formed, and its transpose is `(Diagonal + Homothety ∘ Transpose(Opaque⁻¹)) ∘ Transpose(Index)`. -/
+`Index ∘ (Diagonal + Opaque⁻¹ ∘ Homothety)` from a 2-vector to a 3-vector: it is in the fragment, structurally
+well formed, well typed everywhere, well formed for transposition, and its transpose is `(Diagonal + Homothety ∘ Transpose(Opaque⁻¹)) ∘ Transpose(Index)`. -/
 
 private def sA : Struct := ⟨[], [⟨[2], .f64⟩]⟩
 private def sB : Struct := ⟨[], [⟨[3], .f64⟩]⟩
 private def exOp : Op :=
   .comp 1 [.leaf 2 .index { inS := sA, outS := sB },
-    .cont 3 .add [] [.leaf 4 .diagonal { inS := sA, outS := sA },
+    .cont 3 .add [.leaf, .leaf] [.leaf 4 .diagonal { inS := sA, outS := sA },
       .comp 5 [.wrap 6 .inverse (.leaf 7 .opaque { inS := sA, outS := sA }),
         .leaf 8 .homothety { inS := sA, outS := sA }]]]
 private def exOpT : Op :=
-  .comp 0 [.cont 0 .add [] [.leaf 4 .diagonal { inS := sA, outS := sA },
+  .comp 0 [.cont 0 .add [.leaf, .leaf] [.leaf 4 .diagonal { inS := sA, outS := sA },
       .comp 0 [.leaf 8 .homothety { inS := sA, outS := sA },
         .wrap 0 .transpose (.wrap 6 .inverse (.leaf 7 .opaque { inS := sA, outS := sA }))]],
     .wrap 0 .transpose (.leaf 2 .index { inS := sA, outS := sB })]
 
-private theorem exOp_ok : Frag exOp ∧ exOp.WTAll ∧ exOp.WFT ∧ transposeOp exOp = .ok exOpT := by
-  refine ⟨?_, ?_, ?_, ?_⟩
+private theorem exOp_ok :
+    Frag exOp ∧ StructOK exOp ∧ exOp.WTAll ∧ exOp.WFT ∧ transposeOp exOp = .ok exOpT := by
+  refine ⟨?_, ?_, ?_, ?_, ?_⟩
   · refine .comp _ _ (fun o ho => ?_)
     simp only [List.mem_cons, List.not_mem_nil, or_false] at ho
     rcases ho with rfl | rfl
@@ -589,6 +738,8 @@ private theorem exOp_ok : Frag exOp ∧ exOp.WTAll ∧ exOp.WFT ∧ transposeOp 
         rcases ho with rfl | rfl
         · exact .wrap ..
         · exact .leaf ..
+  · simp [exOp, StructOK, WTExpr, WTList, Chain, WrapOK, ContOK, WrapCls.isLazy, TreeDef.numLeaves, Op.inS,
+      Op.outS, inSLast, outSHead, inSHead, squareLeaf, sA]
   · simp [exOp, Op.WTAll, Op.WTAllList, chainWT, Op.inS, Op.outS, inSLast, outSHead, inSHead]
   · simp [exOp, Op.WFT, Op.WFTList, isSymmetricLeaf]
   · simp [exOp, exOpT, transposeOp, transposeList, isSymmetricLeaf]
@@ -596,7 +747,7 @@ private theorem exOp_ok : Frag exOp ∧ exOp.WTAll ∧ exOp.WFT ∧ transposeOp 
 /-- hence, in any model where leaves and wrappers transpose to their adjoints, so does this expression -/
 example {V R : Type} [Add R] [Zero R] (C : AdjCore V R) (hL : C.LeafAdjoint) :
     ∀ x y, C.mem sA x → C.mem sB y → C.dot (C.den exOp x) y = C.dot x (C.den exOpT y) := by
-  obtain ⟨h1, h2, h3, h4⟩ := exOp_ok
-  exact AdjCore.transpose_adjoint C hL exOp exOpT h1 h2 h3 h4
+  obtain ⟨h1, h0, h2, h3, h4⟩ := exOp_ok
+  exact AdjCore.transpose_adjoint C hL exOp exOpT h1 h0 h2 h3 h4
 
 end Furax
